@@ -534,6 +534,7 @@ NameStart(s) == s # "" /\ At(s, 1) \in {"a", "b", "c", "d", "e", "p", "q", "v", 
 \* the text of the tokens reads back as these tokens; a backslash token stands apart
 GoodPS(toks) == /\ \A i \in 1..(Len(toks) - 1) :
                      /\ ~(toks[i].k = "var" /\ toks[i + 1].k = "lit" /\ NameStart(toks[i + 1].w))
+                     /\ ~(toks[i].k = "bsl" /\ toks[i].w = "$x" /\ toks[i + 1].k = "lit" /\ NameStart(toks[i + 1].w))
                      /\ ~(toks[i].k = "bsl" /\ toks[i + 1].k = "lit" /\ At(toks[i + 1].w, 1) = "!")
                      /\ ~(toks[i].k = "bsl" /\ toks[i + 1].k = "bsl")
                      /\ ~(toks[i].k = "lit" /\ toks[i + 1].k = "bsl")
